@@ -442,10 +442,13 @@ class CatalogWriter(AbstractContextManager, HandlesDataChunk):
             )
 
         if self.cache_directory.exists():
-            if overwrite:
-                rmtree(self.cache_directory)
-            else:
+            if not overwrite:
                 raise FileExistsError(f"cache directory exists: {cache_directory}")
+            if not (self.cache_directory / PATCH_INFO_FILE).exists():
+                raise FileExistsError(
+                    f"path exists but is not a catalog cache: {cache_directory}"
+                )
+            rmtree(self.cache_directory)
 
         self.buffersize = buffersize
         self.cache_directory.mkdir()
